@@ -12,7 +12,7 @@ SPEC = dict(
                 "of term queries, stored-field loads, Writer.Stats/MemoryUsed reached through Event.Chill, a reader held "
                 "across Close, Close after every caller returned at a random delay or exactly while the introducer "
                 "applies a persist introduction, fs and in-memory directories, ice v1/v2, safe and unsafe batches, small "
-                "merge plans, persister nap / catch-up settings), one Close-terminates verdict (90 s guard), and one "
+                "merge plans, persister nap / catch-up settings), one Close-terminates verdict (90 s guard), one verdict per open-reader segment check (no reader that is open — acquired by 12 goroutines doing only Reader()+Close against unsafe single-document batches in the `lifetime` scenarios — contains a segment whose directory handle was released; no handle released twice; no released segment used), and one "
                 "verdict per acknowledged batch after re-opening the index (content = state after a prefix of each "
                 "batcher's batches containing all acknowledged ones). cases: the recorded control-point event sequence "
                 "(directory operations and EventCallback kinds of the persister, merger and closer goroutines) of each "
